@@ -16,6 +16,8 @@ property never becomes a reserved word of the target language.
 * `no_reserved_word_emitted` reference table ⊆ implementation table ⇒ no reserved word *of the language* is emitted
                              by a property validated against it; `modelled_property_sound` instantiates it for the
                              properties of `specTable`
+* `namespace_components_not_reserved`  for the `::` / `.` joined namespace and package paths: none of the joined components
+                             (configured ones and converted IDL namespace parts) is a reserved word of the language
 * `pascal_not_reserved`      why the fixed-PascalCase names of the Objective-C++ glue need no check
 * `glued_not_reserved`       why `field_<name>`-style prints need no check
 
@@ -73,6 +75,8 @@ theorem validate_split {kw : List String} {l : Lang} {sep s s' : String} (hsep :
 
 /-- no character of the part starts the separator -/
 def sepFree (c0 : Char) (part : List Char) : Prop := ∀ x ∈ part, x ≠ c0
+
+instance (c0 : Char) (part : List Char) : Decidable (sepFree c0 part) := by unfold sepFree; infer_instance
 
 theorem isPrefixOf_cons_false {c0 c : Char} {rest cs : List Char} (h : c ≠ c0) :
     (c0 :: rest).isPrefixOf (c :: cs) = false := by
@@ -286,6 +290,50 @@ theorem modelled_property_sound {T : Tables} {c : Cfg} {gen cls attr : String} {
   simp only [nameOutcome, _hsp, Option.map_some, Option.some.injEq] at h
   exact no_reserved_word_emitted hcov hv h s (by simp [tokens])
 
+/-! ### `sep.join(components)` end to end -/
+
+theorem joinS_toList (sep : String) : ∀ parts : List String, (joinS sep parts).toList = joinL sep.toList (parts.map String.toList)
+  | [] => by simp [joinS, joinL]
+  | [x] => by simp [joinS, joinL]
+  | x :: y :: rest => by
+    have ih := joinS_toList sep (y :: rest)
+    simp only [joinS, String.toList_append, List.map_cons, joinL] at ih ⊢
+    rw [ih]
+
+theorem tokens_join {sep : String} {c0 : Char} {rest : List Char} (hsep : sep.toList = c0 :: rest) {parts : List String}
+    (hne : parts ≠ []) (hfree : ∀ p ∈ parts, sepFree c0 p.toList) : tokens (some sep) (joinS sep parts) = parts := by
+  have hs : sep.toList.isEmpty = false := by simp [hsep]
+  simp only [tokens, hs]
+  rw [joinS_toList, hsep, split_join c0 rest (parts.map String.toList) (by simpa using hne)
+    (by intro q hq; obtain ⟨p', hp', rfl⟩ := List.mem_map.mp hq; exact hfree p' hp')]
+  simp [List.map_map]
+
+theorem specOutcome_ok_compose {T : Tables} {c : Cfg} {gen : String} {sp : Spec} {d : Decl} {s : String}
+    (h : specOutcome T c gen sp d = .ok s) : compose T sp c gen d = .ok s := by
+  unfold specOutcome at h
+  cases hc : compose T sp c gen d with
+  | error e => rw [hc] at h; cases h
+  | ok r => rw [hc] at h; rw [(runChecks_ok h).1]
+
+/-- the namespace / package path (`CppBaseType.namespace`, `JavaBaseType.package`, …): when the property returns, none of the
+configured and converted components it joined is a reserved word of the language -/
+theorem namespace_components_not_reserved {T : Tables} {c : Cfg} {gen : String} {sp : Spec} {d : Decl} {s sep : String}
+    {l : Lang} {c0 : Char} {rest : List Char} (hshape : sp.shape = .nsPath sep) (hv : (l, some sep) ∈ sp.checks)
+    (hsep : sep.toList = c0 :: rest) (hcov : refCovered T l = true)
+    (hne : c.base gen ++ d.ns.map (convert (sp.styleOf c gen)) ≠ [])
+    (hfree : ∀ p ∈ c.base gen ++ d.ns.map (convert (sp.styleOf c gen)), sepFree c0 p.toList)
+    (h : specOutcome T c gen sp d = .ok s) :
+    ∀ p ∈ c.base gen ++ d.ns.map (convert (sp.styleOf c gen)), p ∉ reference l := by
+  have hc := specOutcome_ok_compose h
+  have hs : s = joinS sep (c.base gen ++ d.ns.map (convert (sp.styleOf c gen))) := by
+    simp only [compose, hshape, flatCompose, nsPathOf] at hc
+    injection hc with hc
+    exact hc.symm
+  intro p hp
+  have := no_reserved_word_emitted hcov hv h p
+  rw [hs, tokens_join hsep hne hfree] at this
+  exact this hp
+
 /-! ### harmless by construction -/
 
 def startsLower (w : String) : Bool := match w.toList with | c :: _ => !isUpperC c | [] => true
@@ -389,6 +437,13 @@ example : nameOutcome demoTables (demoCfg .none) "objc" "ObjcBaseType" "name" { 
     = some (.ok "MLint") := by decide +kernel
 example : nameOutcome demoTables (demoCfg .none) "objc" "ObjcBaseType" "name" { ns := ["Type"], name := "x" }
     = some (.error (.invalidIdentifier .swift "Type")) := by decide +kernel
+-- the hypotheses of `namespace_components_not_reserved` are satisfiable (tables = reference tables)
+def refTables : Tables := { cxx := cxxReserved, java := javaReserved, objc := objcReserved, cli := cliReserved, swift := [] }
+def nsSpec : Spec := { role := "namespace", shape := .nsPath "::", styleKey := "namespace", checks := [(.cxx, some "::")] }
+example : ∀ p ∈ ["my", "lib", "geo", "flat_map"], p ∉ reference .cxx :=
+  namespace_components_not_reserved (T := refTables) (c := demoCfg .snake) (gen := "cpp") (sp := nsSpec)
+    (d := { ns := ["Geo", "Flat_Map"], name := "x" }) (s := "my::lib::geo::flat_map") (sep := "::") (c0 := ':') (rest := [':'])
+    rfl (by decide) (by decide +kernel) (by decide +kernel) (by decide +kernel) (by decide +kernel) (by decide +kernel)
 -- the known finding: C++/CLI locals are not checked
 example : nameOutcome demoTables (demoCfg .camel) "cppcli" "CppCliBaseField" "name" { name := "gcnew" }
     = some (.ok "gcnew") := by decide +kernel
